@@ -24,6 +24,13 @@ def _reg(prop):
     return run
 
 
+def _kani(prop):
+    def run(tier):
+        from extract import check
+        return check.kani_float_axioms(prop)(tier)
+    return run
+
+
 def _preawait(prop):
     def run(tier):
         from extract import check
@@ -54,7 +61,7 @@ PROPERTIES = {
     'C04': dict(units=ENGINES, explanation='wf / bound / exact-victim postconditions of insert and of the entry-limit eviction, all N, all six policies'),
     'C01': dict(units=ENGINES + WRAPPERS, explanation='get returns a clone of the value stored under exactly this key; insert: last store wins, survivors unchanged'),
     'C07': dict(units=ENGINES, explanation='queue postconditions: hit_recency, store moves key to back, FIFO/LRU victim is the queue front'),
-    'C08': dict(units=ENGINES_SCORES, explanation='hit_counts postcondition and argmin postconditions of the scoring helpers'),
+    'C08': dict(units=ENGINES_SCORES, extra=[_kani('C08')], explanation='hit_counts postcondition and argmin postconditions of the scoring helpers'),
     'C05': dict(units=ENGINES + ['memory_estimator'], explanation='insert_with_memory: total <= max_memory after every store, oversize value not cached and displaces nothing, no eviction while the total fits, FIFO/LRU victims are the oldest; memory totals are a proved fold along the queue (no total axioms); unit memory_estimator: the built-in estimators (String, Vec, Option, Result, 2-/3-tuples, Box) return inline size + owned heap capacity, recursively, without underflow',
                 assumptions=['hit counters never saturate (u64::MAX hits on one entry)', 'sum of the estimates fits usize (machine arithmetic)']),
     'C02': dict(units=WRAPPERS + ['keys'], explanation='wrapper contracts: on every fixture expansion the cache is read and written under exactly key_str(d(p1) + "|" + d(p2) ...) with every parameter (and the receiver) present in order, d = Debug rendering (keys.rs blanket impl verified); lemmas: such keys are injective on argument tuples when each rendering is injective and "|"-safe',
